@@ -125,7 +125,7 @@ Local Open Scope Z_scope.
 (* Outcome, loop over the attributed observations: an observation that fails DecodeAutomationObservation is skipped, any other is added to both counters *)
 Theorem C01_gen_Outcome_loop_decisions :
   forall invalid : bool,
-  g_outcome_obs_body invalid = if invalid then ([], Cont) else ([1; 2], Fall).
+  g_outcome_obs_body invalid = if invalid then ([], Fall) else ([1; 2], Fall).
 Proof. exact gen_outcome_obs_body. Qed.
 Print Assumptions C01_gen_Outcome_loop_decisions.
 
